@@ -78,7 +78,7 @@ fn steps(len: i64) -> Vec<Step> {
 fn paths(report: &Report, thorough: bool, maxlen: u32) {
     let parser = cfgs::parser(Config::Stdlib);
     let roots = roots(thorough);
-    let names = ["x", "o", "deep", "s", "u", "n", "vnil", "undefined_root"];
+    let names = ["x", "o", "deep", "s", "u", "n", "vnil", "undefined_root", "size", "first"];
     let name = format!("paths/len<={maxlen}");
     let nontriv = AtomicU64::new(0);
     let errs = AtomicU64::new(0);
